@@ -291,6 +291,12 @@ func runC10(c *Check) {
 	c.sharedTablesReadOnly()
 	c.noHiddenSessionState()
 	c.outputFileTruncated()
+	c.parsedBeforeStored()
+	// a request's page does not depend on the requests running beside it: state that the web
+	// handlers initialise lazily is only touched inside its sync.Once (shared with C20-R1)
+	c.relabel(c.onceFields, "C20-R1", "C10-R8", func(o *Obligation) bool {
+		return strings.HasPrefix(o.Key, "once:") && strings.HasPrefix(o.Pos, "internal/driver/")
+	})
 }
 
 func isNewCopy(v ssa.Value) bool {
